@@ -11,7 +11,7 @@ model checking
            every reachable control state, both allow_empty_author settings: Total, Deterministic,
            CascadeAgrees (guard table = if/elif cascade), StrictIffWarn (the strict run is the lenient
            run cut at the first warning), SlurpOnlyFromHeading, TrailingHasTarget; end-of-input rule.
-   text    bounded: every text of <= 6 lines (thorough: <= 7 lines) obtained from a well-formed one
+   text    bounded: every text of <= 5 lines (thorough: <= 7 lines) obtained from a well-formed one
            by one mutation (thorough also: <= 4 lines by two mutations) -- insert a line of any class,
            delete or duplicate a line -- and every prefix of it: NormalForm (Formattable(D) => Blocks(Parse(Format(D))) = Blocks(D) /\\ Format(Parse(
            Format(D))) = Format(D)), CleanRoundTrip, StrictIffWarn, and the C04 invariants on the
@@ -382,7 +382,7 @@ def run(ctx):
     quick = ctx.tier == "quick"
     rng = ctx.rng
     ctx.assumptions += [
-        "closed LTS over 24 line classes (texts of any length); normal-form law exhaustively for %s and <= %d editing calls" % (("<= 6 lines with 1 mutation", 2) if quick else ("<= 7 lines with 1 mutation, <= 4 lines with 2 mutations", 4)),
+        "closed LTS over 24 line classes (texts of any length); normal-form law exhaustively for %s and <= %d editing calls" % (("<= 5 lines with 1 mutation", 2) if quick else ("<= 7 lines with 1 mutation, <= 4 lines with 2 mutations", 4)),
         "the C15 verdicts are the statement's self-consistency laws; TLC's predictions of warnings / counts / contents are diagnostics",
         "unspecified: author/date assigned, or a trailing line added, on a block without trailer (input ended inside the block)",
         "lines never contain a str.splitlines() boundary character (DESIGN D1); editing calls get well-formed values (D3)",
@@ -439,9 +439,12 @@ def run(ctx):
         negs = {name: ex.submit(neg_control, ctx, name, text, want) for name, text, want in controls_now}
         for bug, want in (cc.HIST_NEG[1:] if quick else cc.HIST_NEG):
             negs[bug] = ex.submit(neg_control, ctx, bug, cc.hist_cfg(3, 0, bug=bug, emit=False), want)
+        f_reuse = None if quick else ex.submit(cc.reuse_controls, ctx)
         for name, f in futs.items():
             res[name] = f.result()
         ctx.extra["spec_negative_controls"] = {name: f.result() for name, f in negs.items()}
+        if f_reuse is not None:
+            ctx.extra["spec_negative_controls"].update(f_reuse.result())
     ctx.tlc_runs.sort(key=lambda x: (-x["distinct"], str(x["violated"])))
 
     lap("tlc")
@@ -478,8 +481,8 @@ def run(ctx):
             break
     ctx.extra["lts_edges_replayed"] = n_edges
     ctx.extra["model_constants"] = {"classes": len(cc.ALL_CLASSES), "AEAs": [True, False],
-                                    "text": "MaxLines 6, Budget 1" if quick else "MaxLines 4 / Budget 2 and MaxLines 7 / Budget 1",
-                                    "edit": "MaxLines 3, Budget 1, 4 classes, MaxEdits 2" if quick else "MaxLines 3, Budget 1, 2 classes, MaxEdits 3 and MaxLines 1, Budget 0, MaxEdits 4"}
+                                    "text": "MaxLines 5, Budget 1" if quick else "MaxLines 4 / Budget 2 and MaxLines 7 / Budget 1",
+                                    "edit": "MaxLines 3, Budget 1, 3 classes, MaxEdits 2" if quick else "MaxLines 3, Budget 1, 2 classes, MaxEdits 3 and MaxLines 1, Budget 0, MaxEdits 4"}
     e = step_edges[len(step_edges) // 3]
     ctx.sample("lts edge: " + json.dumps(e, separators=(",", ":")))
 
